@@ -26,9 +26,9 @@ G1 = [(SSE, SKIN), (FO4, EXTRA | LOOSE), (OB, SKIN | COLL), (SK, CTRL | SHAPE2),
 def jobs(tier, seed):
     J = []
     q = tier == "quick"
-    for ver, feat in G1:
-        J.append(dict(entry="h_c06", args=[ver, feat, 1, -1], budget=150 if q else 900))
-    J.append(dict(entry="h_c06", args=[SSE, -1, 1, -1], budget=100))
+    for ver, feat in G1 + [(SSE, -1)]:
+        for first in range(6):   # one job per first operation (parallel, each small enough to finish)
+            J.append(dict(entry="h_c06", args=[ver, feat, 1, first], budget=150 if q else 900))
     k2 = [(SSE, -1), (SSE, 0), (FO4, LOOSE)] if q else [(SSE, -1), (SSE, 0), (FO4, LOOSE), (OB, SKIN), (SK, CTRL), (SSE, SKIN | EXTRA)]
     for ver, feat in k2:
         for first in range(6):
@@ -45,4 +45,7 @@ def owns_violation(v):
 
 
 def signature(job, v):
+    if v["aid"] in BUILTIN:
+        top = next((f for f in v["stack"] if "nifly" in f), "")
+        return "%s:%s:%s" % (job["entry"], v["aid"], top[:60])
     return "%s:%s" % (job["entry"], v["aid"])
